@@ -24,6 +24,26 @@ def exec_once(m):
     return wrapper
 
 
+class _WithoutPlaceholders(object):
+    ''' View of a pattern packet for the callables that compute a size from
+        other fields: reading a field that is still an Any placeholder fails,
+        so the size is taken as unknown. (Any() == x is True for every x:
+        that is right for matching, but it is not a value to compute with.)
+        '''
+    __slots__ = ('_pkt', )
+
+    def __init__(self, pkt):
+        object.__setattr__(self, '_pkt', pkt)
+
+    def __getattr__(self, name):
+        value = getattr(object.__getattribute__(self, '_pkt'), name)
+        if isinstance(value, Any):
+            raise ValueError("The field '%s' is a placeholder." % name)
+        if isinstance(value, Packet):
+            return _WithoutPlaceholders(value)
+        return value
+
+
 class Field:
     ''' A field represents a single parsing unit. This is the superclass from
         where all the other fields must inherit.
@@ -699,7 +719,9 @@ class Data(Field):
 
                 elif callable(self.byte_count):
                     try:
-                        byte_count = self.byte_count(pkt=pkt, **k)
+                        byte_count = self.byte_count(
+                            pkt=_WithoutPlaceholders(pkt), **k
+                        )
                     except Exception as e:
                         byte_count = None
 
